@@ -1261,6 +1261,13 @@ class _RClass:
             else: parts.append(array([k]))
         return concatenate(parts, axis=0)
 r_ = _RClass()
+def isclose(a, b, rtol=1e-05, atol=1e-08, equal_nan=False):
+    return _binop(asarray(a), asarray(b), lambda x, y: (abs(x - y) <= atol + rtol * abs(y)), cmp=True)
+def allclose(a, b, rtol=1e-05, atol=1e-08, equal_nan=False): return all(isclose(a, b, rtol, atol))
+def __getattr__(name):
+    # PEP 562: anything of numpy that is not modelled is an engine limit (undecided), never a verdict about the code
+    if name.startswith('__'): raise AttributeError(name)
+    raise NeedsContract('numpy.%s is not modelled by pyvc.symnp' % name)
 def linspace(start, stop, num=50, endpoint=True, dtype=None):
     if not isinstance(num, int): raise NeedsContract('linspace with a symbolic number of points')
     a, b = core.to_float(start), core.to_float(stop)
